@@ -47,6 +47,10 @@ pub fn texts_c01(len: usize) -> Vec<String> {
             t.push(extra.to_string());
         }
     }
+    // carriage returns: line anchors and `.` know about `\n` only (no CRLF mode exists)
+    for extra in ["\r", "\r\n", "a\r", "\ra", "a\r\n", "\n\r", "a\rb", "a\r\nb", "\r\r"] {
+        t.push(extra.to_string());
+    }
     t
 }
 
@@ -89,6 +93,9 @@ pub fn texts_mb(len: usize) -> Vec<String> {
         if extra.chars().count() > len {
             t.push(extra.to_string());
         }
+    }
+    for extra in ["\r", "a\r\n", "\r\na", "é\r"] {
+        t.push(extra.to_string());
     }
     t
 }
